@@ -5,6 +5,8 @@
 #include "gen/categories.hpp"
 #include "collect.hpp"
 #include <typeinfo>
+#include <memory>
+#include <cstddef>
 #include <type_traits>
 #include <cxxabi.h>
 
@@ -86,6 +88,30 @@ static void all_views(const Node& n, Ctx& C, const std::string& cls)
 #undef VH_X
 }
 
+// Nodes of different categories given successive lifetimes in the SAME storage (what a recycled heap block does by itself):
+// whatever lived at an address before must not show in what view<J>, accept() and the default hooks say about the node
+// that lives there now.
+static void address_reuse(Ctx& C, impl::Lexicon& lex)
+{
+   const Lexicon& L = lex;
+   alignas(64) static std::byte storage[2048];
+   auto& lit = *lex.make_literal(L.int_type(), u8"1");
+   auto examine = [&](const Node& n, const char* cls, int want) {
+      C.count("instances_in_reused_storage");
+      if (int(n.category) != want) C.viol(std::string("reused-storage:category:") + cls, "a node built in storage that held another node reports a wrong category");
+      Recorder r; n.accept(r);
+      if (r.calls.size() != 1 || r.calls[0].first != want || r.calls[0].second != &n) C.viol(std::string("reused-storage:accept:") + cls, "accept() of a node built in storage that held another node does not call exactly its own leaf hook");
+      all_views(n, C, std::string(cls) + " (in storage that held a node of another category)");
+   };
+   for (int round = 0; round < 3; ++round) {
+#define VH_REUSE(Impl, Cat, ...) { static_assert(sizeof(impl::Impl) <= sizeof storage); auto* p = std::construct_at(reinterpret_cast<impl::Impl*>(storage) __VA_OPT__(,) __VA_ARGS__); examine(*p, #Impl, int(Category_code::Cat)); std::destroy_at(p); }
+      VH_REUSE(Pointer, Pointer, L.int_type()) VH_REUSE(Reference, Reference, L.int_type()) VH_REUSE(Rvalue_reference, Rvalue_reference, L.char_type())
+      VH_REUSE(Address, Address, lit) VH_REUSE(Not, Not, lit) VH_REUSE(Break, Break) VH_REUSE(Continue, Continue) VH_REUSE(Pointer, Pointer, L.bool_type())
+      VH_REUSE(Not, Not, lit) VH_REUSE(Reference, Reference, L.int_type()) VH_REUSE(Continue, Continue) VH_REUSE(Address, Address, lit)
+#undef VH_REUSE
+   }
+}
+
 static void body(Ctx& C)
 {
    C.rule("finite space: every leaf interface category (generated from <ipr/node-category>) x every implementation class instance "
@@ -104,6 +130,7 @@ static void body(Ctx& C)
       const Lexicon& L = lex;
       Sweep S(lex, unit, rng);
       S.run_all();
+      address_reuse(C, lex);
       Collector col;
       // first declarations and redeclarations (master() differs from the node itself) of every declaration kind
       {
@@ -162,7 +189,7 @@ static void body(Ctx& C)
    C.extra("implementation_classes", list + "]");
    int ns = 0;
    for (auto& [cls, k] : classes) { if (ns++ % 40 == 0) C.sample(J().s("dynamic_class", cls).s("category", cat_name(k)).str(), 6); }
-   C.need("view_calls"); C.need("instances_checked"); C.need("redeclarations_instantiated");
+   C.need("view_calls"); C.need("instances_checked"); C.need("redeclarations_instantiated"); C.need("instances_in_reused_storage");
    C.exhaustive(missing.empty());
 }
 
